@@ -1457,73 +1457,110 @@ class FlowIR(object):
             return cls._default_cpuUnitsPerCore
 
     @classmethod
+    def _reference_spellings(cls, reference, owner_stage):
+        # type: (str, Optional[int]) -> List[str]
+        """Returns the strings under which a component of stage @owner_stage may spell @reference
+
+        These are the reference as written, its absolute representation (stage<index>.<producer>...), and, only when
+        the producer is in @owner_stage, its relative representation: in any other stage the relative spelling
+        points to a different component.
+        """
+        spellings = [reference]
+        try:
+            stage_index, producer, filename, method = cls.ParseDataReferenceFull(reference, owner_stage)
+        except Exception:
+            return spellings
+
+        if stage_index is None:
+            return spellings
+
+        spellings.append(cls.compile_reference(producer, filename, method, stage_index))
+        if owner_stage is None or stage_index == owner_stage:
+            spellings.append(cls.compile_reference(producer, filename, method))
+
+        return spellings
+
+    @classmethod
+    def _compile_reference_rewriter(cls, component, translation, match_path):
+        # type: (DictFlowIRComponent, Dict[str, Any], bool) -> Callable[[Callable[[str, Optional[str]], str]], Callable[[str], str]]
+        """Builds a function which rewrites the references in @translation inside a string in ONE pass
+
+        The references of @component that are not in @translation are matched too (and left as they are) so that a
+        reference is never rewritten inside a longer one (e.g. `a:ref` inside `ba:ref` or `stage0.ba:ref`), and the
+        output of one rewrite is never rewritten again (e.g. `a:ref` -> `stage0.a1:ref` next to a producer `a1`).
+        """
+        owner_stage = component.get('stage', 0)
+        known = set(translation)
+        for ref in component.get('references', []):
+            if isinstance(ref, string_types):
+                known.update(cls._reference_spellings(ref, owner_stage))
+
+        # VV: Longest first: at any position in the string the longest reference wins
+        alternatives = '|'.join(re.escape(ref) for ref in sorted(known, key=lambda name: (-len(name), name)))
+        if match_path:
+            # This re will find references followed by paths
+            expression = re.compile(r"(%s)((?:/[\w.*]+)+,*)?" % alternatives)
+        else:
+            expression = re.compile(r"(%s)()" % alternatives)
+
+        def generate(rewrite):
+            def replace_one(match):
+                if match.group(1) not in translation:
+                    return match.group(0)
+                return rewrite(match.group(1), match.group(2))
+
+            def rewrite_string(string):
+                # type: (str) -> str
+                return expression.sub(replace_one, string)
+
+            return rewrite_string
+
+        return generate
+
+    @classmethod
     def compile_component_aggregate(cls, component, count, refs_to_replicate):
         # type: (DictFlowIRComponent, int, List[str]) -> DictFlowIRComponent
         translation_map = {}
 
         component = deep_copy(component)
 
-        comp_stage = component.get('stage', None)
+        comp_stage = component.get('stage', 0)
 
         for ref in refs_to_replicate:
-            for replica in range(count):
-                stage_index, producer, filename, method = cls.ParseDataReferenceFull(ref, comp_stage)
-                rewritten = cls.compile_reference(
-                    producer, filename, method, stage_index=stage_index, replica_id=replica
-                )
+            stage_index, producer, filename, method = cls.ParseDataReferenceFull(ref, comp_stage)
+            if stage_index is None:
+                continue
 
-                original_long = FlowIR.compile_reference(producer, filename, method, stage_index)
-                original_short = FlowIR.compile_reference(producer, filename, method)
+            rewritten = [
+                cls.compile_reference(producer, filename, method, stage_index=stage_index, replica_id=replica)
+                for replica in range(count)]
 
-                for ref_str in [original_long, original_short]:
-                    if ref_str not in translation_map:
-                        translation_map[ref_str] = []
+            # VV: Need to aggregate references in both Absolute and Relative format (the latter is only
+            # meaningful when the producer is in the same stage as the aggregating component)
+            translation_map[FlowIR.compile_reference(producer, filename, method, stage_index)] = rewritten
+            if stage_index == comp_stage:
+                translation_map[FlowIR.compile_reference(producer, filename, method)] = rewritten
 
-                    translation_map[ref_str].append(rewritten)
+        def aggregate_one(ref, path):
+            # type: (str, Optional[str]) -> str
+            # If ref is followed by a path then we have to replicate the path everywhere
+            # e.g. Component:ref/file.txt -> Component1:ref/file.txt Component2:ref/file.txt etc
+            if not path:
+                return " ".join(translation_map[ref])
 
-        def aggregate(string):
-            # type: (str) -> str
-            for ref in refs_to_replicate:
-                # This re will find references followed by paths
-                # If ref is followed by a path then we have to replicate the path everywhere
-                # e.g. Component:ref/file.txt -> Component1:ref/file.txt Component2:ref/file.txt etc
-                update_refs = [ref]
-                stage_index, producer, filename, method = cls.ParseDataReferenceFull(ref, None)
-                if stage_index is not None:
-                    # VV: We want to add the ABSOLUTE reference second so that we do not end up with:
-                    # stage<idx>.stage<idx>.<component name>
-                    extra_ref = cls.compile_reference(
-                        producer=producer, filename=filename, method=method)
-                    update_refs.append(extra_ref)
-                for ref in update_refs:
-                    expression = re.compile(r"%s((?:/[\w.*]+)+,*)?" % ref)
-                    orig_string = string
-                    m = expression.search(string)
-                    if m is not None:
-                        # Check if we have a path after the reference
-                        if m.group(1) is not None:
-                            path = m.group(1)
-                            # Now check if there is a comma at end of path - if there is join using a comma
-                            separator = " "
-    
-                            # VV: FIXME What if someone uses this hack in the `references` field ?
-                            if path[-1] == ",":
-                                separator = ","
-                                path = path[:-1]
-    
-                            replacement = ["%s%s" % (el, path) for el in translation_map[ref]]
-                            replacement = separator.join(replacement)
-                            string = expression.sub(replacement, string)
-                        else:
-                            string = string.replace(ref, " ".join(translation_map[ref]))
-                        if string != orig_string:
-                            # VV: if we replaced the Absolute ref we must skip replacing the relative ref becuase
-                            # we'll end up with stage<idx>.stage<idx>.<component name>
-                            break
+            # Now check if there is a comma at end of path - if there is join using a comma
+            separator = " "
 
-            return string
+            # VV: FIXME What if someone uses this hack in the `references` field ?
+            if path[-1] == ",":
+                separator = ","
+                path = path[:-1]
 
-        component = FlowIR.replace_strings(component, aggregate, in_place=True)
+            return separator.join(["%s%s" % (el, path) for el in translation_map[ref]])
+
+        if translation_map:
+            aggregate = cls._compile_reference_rewriter(component, translation_map, match_path=True)(aggregate_one)
+            component = FlowIR.replace_strings(component, aggregate, in_place=True)
 
         # VV: The replacement happens at the string level which means that
         #     we have to split the `references` field again
@@ -1541,20 +1578,9 @@ class FlowIR(object):
     def compile_component_replica(cls, component, replica, total_replicas, refs_to_replicate):
         # type: ( DictFlowIRComponent, int, int, List[str]) -> DictFlowIRComponent
         component = deep_copy(component)
-        # VV: Patch backpatch FlowIR with `replica` variable, and `replicate` workflowAttributes field
-        variables = component.get('variables', {})
-        workflowAttributes = component.get('workflowAttributes', {})
-
-        variables['replica'] = replica
-        workflowAttributes['replicate'] = total_replicas
-
-        component['variables'] = variables
-        component['workflowAttributes'] = workflowAttributes
-
-        component['name'] = '%s%d' % (component['name'], replica)
+        owner_stage = component.get('stage', 0)
 
         translation = {}
-        owner_stage = component.get('stage', 0)
 
         for original in refs_to_replicate:
             stage_index, producer, filename, method = cls.ParseDataReferenceFull(original, owner_stage)
@@ -1566,25 +1592,29 @@ class FlowIR(object):
                 producer, filename, method, stage_index=stage_index, replica_id=replica
             )
 
-            original_long = FlowIR.compile_reference(producer, filename, method, stage_index)
-            original_short = FlowIR.compile_reference(producer, filename, method)
+            translation[FlowIR.compile_reference(producer, filename, method, stage_index)] = rewritten
+            if stage_index == owner_stage:
+                # VV: The relative representation points to the producer only in the stage of the producer
+                translation[FlowIR.compile_reference(producer, filename, method)] = rewritten
 
-            translation[original_long] = rewritten
-            translation[original_short] = rewritten
+        # VV: References are rewritten in one pass, the longest reference at a position wins, and the references
+        #     that are not replicated are left as they are (see _compile_reference_rewriter)
+        if translation:
+            translation_func = cls._compile_reference_rewriter(component, translation, match_path=False)(
+                lambda ref, _path: translation[ref])
+            component = cls.replace_strings(component, translation_func, in_place=True)
 
-        # VV: Ensure that references are replaced from the longest one to the shortest one so that
-        #     there is no way that a partial reference is replaced. This is probably overkill;
-        #     references end with the `method` postfix (e.g. ':ref').
-        sorted_translation = sorted(translation, key=lambda name: len(name), reverse=True)
+        # VV: Patch backpatch FlowIR with `replica` variable, and `replicate` workflowAttributes field
+        variables = component.get('variables', {})
+        workflowAttributes = component.get('workflowAttributes', {})
 
-        def translation_func(string):
-            # type: (str) -> str
-            for original in sorted_translation:
-                string = string.replace(original, translation[original])
+        variables['replica'] = replica
+        workflowAttributes['replicate'] = total_replicas
 
-            return string
+        component['variables'] = variables
+        component['workflowAttributes'] = workflowAttributes
 
-        component = cls.replace_strings(component, translation_func, in_place=True)
+        component['name'] = '%s%d' % (component['name'], replica)
 
         return component
 
